@@ -373,6 +373,19 @@ func trimStack(b []byte) string {
 	return string(bytes.Join(keep, []byte("\n")))
 }
 
+// FinalizeOnly runs FinalizeBlock for the next height WITHOUT Commit (a crash point: the node dies
+// after executing the block but before committing it). The world is left Poisoned on purpose.
+func (w *World) FinalizeOnly(tm int64, txs [][]byte) (res *abci.ResponseFinalizeBlock, err error) {
+	defer func() {
+		if r := recover(); r != nil {
+			err = fmt.Errorf("panic: %v", r)
+		}
+		w.Poisoned = true
+	}()
+	h := w.App.LastBlockHeight() + 1
+	return w.App.FinalizeBlock(&abci.RequestFinalizeBlock{Height: h, Time: time.Unix(tm, 0).UTC(), Txs: txs})
+}
+
 // Rollback returns the instance to committed version v with environment env.
 func (w *World) Rollback(v int64, env Env) {
 	if w.Poisoned {
